@@ -429,6 +429,43 @@ Fixpoint list_eqb {A} (eqb : A -> A -> bool) (l1 l2 : list A) : bool :=
   | _, _ => false
   end.
 
+(* ------------------------------------------------------------------ 4b. del and owning destructors *)
+
+(* del(x) in the two kinds of build (Alloc.c del_by):
+     collector compiled in   rem(current(GC), x): the object registered under x is finalised and freed; an address
+                             that is not registered — NULL in particular — is not found and nothing happens
+     CELLO_NGC               destruct(x); dealloc(x) at once: type_of(NULL) raises ValueError under
+                             CELLO_NULL_CHECK and dereferences NULL without it
+   `Some a` = an object made with new (registered when there is a collector). *)
+Inductive dres := DNothing | DDestroyed (a : nat) | DRaise (e : xexn) | DCrash.
+
+Definition del_model (c : config) (x : option nat) : dres :=
+  match x with
+  | Some a => DDestroyed a
+  | None => if gc c then DNothing else if checks c SwNull then DRaise XValueError else DCrash
+  end.
+
+(* destructor of an owner whose content may be NULL (Box_Del): it forwards the content to del, behind a NULL
+   test (guarded = true, what Generated.cfg_box_del_guarded reads off Pointer.c) or not *)
+Definition owner_del (guarded : bool) (c : config) (content : option nat) : dres :=
+  if guarded then match content with Some a => del_model c (Some a) | None => DNothing end
+  else del_model c content.
+
+(* the forwarded del calls of all destructors of src/*.c, as audited: each is behind a NULL test or passes a field
+   that the type's constructor always fills *)
+Definition audited_del_forwards : list str4 :=
+  [("src/Exception.c", "Exception_Del", "del_raw(e->msg)", "constructed");
+   ("src/Iter.c", "Range_Del", "del(r->value)", "constructed");
+   ("src/Iter.c", "Slice_Del", "del(s->range)", "constructed");
+   ("src/Iter.c", "Zip_Del", "del(z->iters)", "constructed");
+   ("src/Iter.c", "Zip_Del", "del(z->values)", "constructed");
+   ("src/Pointer.c", "Box_Del", "del(obj)", "guarded");
+   ("src/Thread.c", "Thread_Del", "del_raw(t->args)", "guarded");
+   ("src/Thread.c", "Thread_Del", "del_raw(t->tls)", "constructed")]%string.
+
+Definition del_forward_ok (r : str4) : bool :=
+  String.eqb (blk_class r) "guarded" || String.eqb (blk_class r) "constructed".
+
 (* ------------------------------------------------------------------ 5. the collector switch (CELLO_NGC) *)
 
 (* A program that reaches objects only through its registers (the root slots): allocate, read, write,
